@@ -112,7 +112,7 @@ func splitLast(s string) (string, string, bool) {
 }
 
 func c10RandPrefix(r *rand.Rand) string {
-	switch r.Intn(8) {
+	switch r.Intn(10) {
 	case 0:
 		return fmt.Sprintf("10.%d.0.0/16", r.Intn(4))
 	case 1:
@@ -127,8 +127,13 @@ func c10RandPrefix(r *rand.Rand) string {
 		return []string{"127.0.0.1", "::1", "0.0.0.0/0", "::/0", "127.0.0.0/8", "fe80::/10", "::ffff:10.0.0.0/104", "192.168.1.0/24"}[r.Intn(8)]
 	case 6:
 		return fmt.Sprintf("192.168.%d.%d/%d", r.Intn(3), r.Intn(256), 24+r.Intn(9))
-	default:
+	case 7:
 		return fmt.Sprintf("10.%d.%d.%d/%d", r.Intn(4), r.Intn(3), r.Intn(4), 29+r.Intn(4))
+	case 8:
+		// IPv4-mapped spellings of IPv4 addresses and networks
+		return []string{fmt.Sprintf("::ffff:10.%d.%d.%d", r.Intn(4), r.Intn(3), r.Intn(4)), fmt.Sprintf("::ffff:10.%d.0.0/112", r.Intn(4)), "::ffff:0:0/96"}[r.Intn(3)]
+	default:
+		return fmt.Sprintf("10.%d.%d.%d", r.Intn(4), r.Intn(3), r.Intn(4))
 	}
 }
 
